@@ -14,8 +14,10 @@ TRUSTED = ["lifecycle observations are triples (Done closed?, IsConnected, class
 ASSUMPTIONS = []
 
 
-def hist(rng, ident):
+def hist(rng, ident, big=False):
     s = ["observe/start", "watch/on"]
+    # big: the not-found / stray frames carry arguments larger than the 4 KiB read buffer (and than 64 KiB)
+    bigpad = (lambda: rng.choice([4090, 4097, 5000, 9000, 70000])) if big else (lambda: 0)
     nfs = []
     exp = []
     n = 0
@@ -38,17 +40,17 @@ def hist(rng, ident):
         elif k == 2:    # incoming call, unknown method / protocol
             seq_in += 1
             me = rng.choice([b"p.x", b"q.m", b"nodot", b"p.", b"a.b.c"])
-            s.append(scn.feed_call(seq_in, 900, meth=me))
+            s.append(scn.feed_call(seq_in, 900, meth=me, pad=bigpad()))
             i = me.rfind(b".")
             prot, m = (b"", me) if i < 0 else (me[:i], me[i + 1:])
             missing = prot if prot != b"p" else m
             nfs.append("%d:%s" % (seq_in, missing.hex()))
             s.append("settle")
         elif k == 3:    # incoming notification, unknown method
-            s.append(scn.feed_notify(901, meth=rng.choice([b"p.x", b"zz.y"])))
+            s.append(scn.feed_notify(901, meth=rng.choice([b"p.x", b"zz.y"]), pad=bigpad()))
             s.append("settle")
         elif k == 4:    # stray response
-            s.append(scn.feed_resp(5000 + rng.below(100), 902))
+            s.append(scn.feed_resp(5000 + rng.below(100), 902, pad=bigpad()))
             s.append("settle")
         elif k == 5:    # stray cancellation
             s.append(scn.feed_cancel(6000 + rng.below(100)))
@@ -71,8 +73,17 @@ def hist(rng, ident):
 def fatal(rng, ident):
     ch = mp.Chooser()
     good = frames.frame(frames.content([2, ("s", scn.M), scn.arg(100)], ch), ch)
-    kind = rng.below(8)
-    if kind == 0:
+    kind = rng.below(12)
+    if kind >= 8:
+        # a request for a REGISTERED method whose trailing tags field does not decode as a string-keyed map
+        badtags = rng.choice([5, ("s", b"tags"), [1, 2], ("m", [(7, 1)]), True])
+        if kind in (8, 9):
+            bad = frames.frame(frames.content([0, 77, ("s", scn.M), scn.arg(101), badtags], ch), ch)
+        elif kind == 10:
+            bad = frames.frame(frames.content([2, ("s", scn.M), scn.arg(101), badtags], ch), ch)
+        else:
+            bad = frames.frame(frames.content([4, 78, 0, ("s", scn.M), scn.arg(101), badtags], ch), ch)
+    elif kind == 0:
         bad = b"\xc1\x01\x02"
     elif kind == 1:
         bad = b"\x00"
@@ -91,9 +102,13 @@ def fatal(rng, ident):
     s = ["observe/start", "watch/on", "feed/" + good.hex(), "waithandlers/1", "observe/mid"]
     if bad:
         s.append("feednowait/" + bad.hex())
+    # a violation that is complete in the stream must stop the transport by itself, before the stream ends
+    alone = bool(bad) and kind not in (6, 7) and rng.chance(1, 2)
+    if alone:
+        s.append("waitdone")
     s.append("readerr/%s" % rng.choice(["eof", "op", "other"]))
     s += ["waitdone", "observe/stopped", "settle", "observe/stopped2", "finishall", "observe/end"]
-    return scn.line("scn", ident, s, extra="nt=1 family=fatal expectend=stopped")
+    return scn.line("scn", ident, s, extra="nt=1 family=fatal expectend=stopped handlers=1 alone=%d" % (1 if alone else 0))
 
 
 def close_race(rng, ident):
@@ -133,6 +148,8 @@ def explore(ctx):
         n = 0
         for _ in range({"quick": 200, "thorough": 5000, "search": 800}[tier]):
             lines.append(hist(rng, "h%d" % n)); n += 1
+        for _ in range({"quick": 60, "thorough": 1000, "search": 200}[tier]):
+            lines.append(hist(rng, "b%d" % n, big=True)); n += 1
         for _ in range({"quick": 60, "thorough": 800, "search": 200}[tier]):
             lines.append(fatal(rng, "f%d" % n)); n += 1
         for _ in range({"quick": 80, "thorough": 1500, "search": 300}[tier]):
